@@ -204,9 +204,9 @@ impl Stream {
         let header = match (cfg.parser, cfg.shape) {
             (ParserId::Aag, _) => Some(format!("aag {items} 0 0 0 {items}\n").into_bytes()),
             (ParserId::Aig, _) => Some(format!("aig {items} 0 0 0 {items}\n").into_bytes()),
-            (ParserId::Cnf, 1) => Some(b"p cnf 1000 100\n".to_vec()),
-            (ParserId::Wcnf, 1) => Some(b"p wcnf 1000 100 9\n".to_vec()),
-            (ParserId::Gcnf, 1) => Some(b"p gcnf 1000 100 50\n".to_vec()),
+            (ParserId::Cnf, 1) => Some(b"p cnf 60000000 100\n".to_vec()),
+            (ParserId::Wcnf, 1) => Some(b"p wcnf 60000000 100 9\n".to_vec()),
+            (ParserId::Gcnf, 1) => Some(b"p gcnf 60000000 100 60000000\n".to_vec()),
             _ => None,
         };
         let log = Rc::new(RefCell::new(SrcLog::default()));
